@@ -212,7 +212,6 @@ type childResult struct {
 	err     error
 }
 
-var panicSiteRe = regexp.MustCompile(`(?m)^(github\.com/gocql/gocql[^\s(]*)`)
 
 func panicSignature(stderr string) (sig, head string) {
 	i := strings.Index(stderr, "panic: ")
@@ -229,10 +228,13 @@ func panicSignature(stderr string) (sig, head string) {
 	}
 	// first driver frame after the panic line
 	site := "?"
-	for _, m := range panicSiteRe.FindAllStringSubmatch(rest, -1) {
-		fn := m[1]
-		if strings.Contains(fn, "verifsim") {
+	for _, line := range strings.Split(rest, "\n") {
+		if !strings.HasPrefix(line, "github.com/gocql/gocql") || strings.Contains(line, "verifsim") {
 			continue
+		}
+		fn := line
+		if i := strings.LastIndex(fn, "("); i > 0 {
+			fn = fn[:i]
 		}
 		site = strings.TrimPrefix(fn, "github.com/gocql/gocql.")
 		site = strings.TrimPrefix(site, "github.com/gocql/gocql/")
@@ -399,8 +401,12 @@ func shrink(p *payload, sig string, budget time.Duration) *payload {
 				q := best
 				q.Tape = c
 				q.Log = nil
-				sigs, last, _ := replayOnce(&q, 2, false)
-				outs[i] = out{allEqual(sigs, sig, 2), last}
+				sigs, last, crash := replayOnce(&q, 2, false)
+				need := 2
+				if crash != "" {
+					need = 1 // a crash ends the child: one signature per process
+				}
+				outs[i] = out{allEqual(sigs, sig, need), last}
 			}(i, c)
 		}
 		wg.Wait()
@@ -633,6 +639,7 @@ func cmdCheck(prop string, args []string) {
 	}
 
 	// ---- classify ----
+	otherProps := map[string]int{}
 	type group struct {
 		prop, sig string
 		ex        []*payload
@@ -659,7 +666,7 @@ func cmdCheck(prop string, args []string) {
 		// a panic in a driver goroutine kills the process: that is C05 (and whatever
 		// property the scenario serves); attribute to the checked property if the
 		// scenario serves it, with the panic site as signature
-		cp := spec.CrashProperty
+		cp := crashProperty[p.Scenario]
 		if cp == "" {
 			infra = append(infra, fmt.Sprintf("%s run %d crashed: %s", p.Scenario, p.Index, firstLine(p.Violation.Message)))
 			continue
@@ -677,6 +684,8 @@ func cmdCheck(prop string, args []string) {
 		if st.Class == "driver-lock-deadlock" && spec.DeadlockProperty != "" {
 			p := &payload{Violation: &violation{Property: spec.DeadlockProperty, Signature: spec.DeadlockProperty + "/lock-deadlock", Message: st.Stacks}}
 			addG(spec.DeadlockProperty, p.Violation.Signature, p)
+		} else if st.Class == "driver-lock-deadlock" {
+			otherProps["(lock deadlock in the driver; reported by the C06/C17 checks)"]++
 		} else {
 			infra = append(infra, "stall ("+st.Class+"): a bubble froze in real time; goroutine dump in the child's output")
 			os.WriteFile(filepath.Join(verifDir, ".work", "last-stall.txt"), []byte(st.Stacks), 0o644)
@@ -696,7 +705,6 @@ func cmdCheck(prop string, args []string) {
 		shrinkBudget = 120 * time.Second
 	}
 	os.MkdirAll(filepath.Join(verifDir, "replays"), 0o755)
-	otherProps := map[string]int{}
 	for _, k := range keys {
 		g := groups[k]
 		if g.prop != prop {
@@ -796,29 +804,17 @@ func finalize(ex *payload, sig string, budget time.Duration, seed int64, tier st
 		return &p
 	}
 	p.ShrunkFrom = len(p.Tape)
-	sigs, _, _ := replayOnce(&p, 3, false)
-	okN := 0
-	for _, s := range sigs {
-		if s == rawSig {
-			okN++
-		}
-	}
+	okN := countRepro(&p, rawSig, 3)
 	if okN < 3 {
-		// try up to 5 attempts in total
-		sigs2, _, _ := replayOnce(&p, 2, false)
-		for _, s := range sigs2 {
-			if s == rawSig {
-				okN++
-			}
-		}
+		okN += countRepro(&p, rawSig, 2)
 		if okN < 3 {
 			p.ReplaysOK = fmt.Sprintf("%d/5 replay=unstable", okN)
 			return &p
 		}
 	}
 	best := shrink(&p, rawSig, budget)
-	sigs, last, crash := replayOnce(best, 3, true)
-	if allEqual(sigs, rawSig, 3) {
+	if countRepro(best, rawSig, 3) == 3 {
+		_, last, crash := replayOnce(best, 1, true)
 		best.ReplaysOK = "3/3"
 		if last != nil {
 			best.Log = last.Log
@@ -834,6 +830,28 @@ func finalize(ex *payload, sig string, budget time.Duration, seed int64, tier st
 	}
 	p.ReplaysOK = "3/3 (unshrunk; shrunk candidate unstable)"
 	return &p
+}
+
+// countRepro replays p in n fresh processes and counts how many show the signature.
+func countRepro(p *payload, sig string, n int) int {
+	res := make([]bool, n)
+	var wg sync.WaitGroup
+	for i := 0; i < n; i++ {
+		wg.Add(1)
+		go func(i int) {
+			defer wg.Done()
+			sigs, _, _ := replayOnce(p, 1, false)
+			res[i] = len(sigs) > 0 && sigs[0] == sig
+		}(i)
+	}
+	wg.Wait()
+	c := 0
+	for _, ok := range res {
+		if ok {
+			c++
+		}
+	}
+	return c
 }
 
 func cmdReplay(args []string) {
